@@ -245,6 +245,7 @@ def C18(tier):
         num_stage("moments_and_axis_forms", "c06/c07", (3000, 30000)),
         num_stage("moments_overflowing_sums", "c18big", (300, 3000)),
         num_stage("axis_forms_unusual_weights", "c18w", (1500, 10000)),
+        num_stage("axis_forms_vs_lanes", "axpair", (1500, 10000)),
     ]
     return dict(models=[quantile_models(tier)[k] for k in (0, 1, 3)] + [
                     dict(module="Bulk", name="MC_Bulk_vs_single",
@@ -474,7 +475,8 @@ def summary_models(tier):
 
 
 def C06(tier):
-    return dict(models=summary_models(tier), stages=[num_stage("means", "c06", (3000, 30000)), num_stage("means_release", "c06", (1000, 8000), profile="release")],
+    return dict(models=summary_models(tier), stages=[num_stage("means", "c06", (3000, 30000)), num_stage("means_release", "c06", (1000, 8000), profile="release"),
+                                                      num_stage("axis_forms_vs_lanes", "axpair", (1500, 10000))],
                 nontrivial=lambda o: len(o.get("r", [])) >= 2, exhaustive=False,
                 rule="mean, weighted_sum, weighted_mean (+ per-axis forms), harmonic_mean (integers 1..8), geometric_mean (powers of two over "
                      "+-300 binades); f64/f32 grid data with offsets to 2^30, i32/i64/u8 exact; data and weights in independently chosen layouts "
@@ -483,7 +485,7 @@ def C06(tier):
 
 
 def C07(tier):
-    return dict(models=summary_models(tier), stages=[num_stage("moments", "c07", (4000, 40000))],
+    return dict(models=summary_models(tier), stages=[num_stage("moments", "c07", (4000, 40000)), num_stage("axis_forms_vs_lanes", "axpair", (1500, 10000))],
                 nontrivial=lambda o: len(o.get("r", [])) >= 2, exhaustive=False,
                 rule="weighted_var / weighted_std (+ per-axis) with integer weights incl. zeros, ddof in {0, 1/2, 1}, offsets to 2^20; central_moment(s) of "
                      "orders 0..8 on tiny integer data with offsets to 2^45 (orders <= 4); skewness and kurtosis in squared / cross-multiplied form; "
